@@ -17,6 +17,7 @@ class FileSim:
 def install_io(eng):
     def b_open(eng_, path, mode="r", **kw):
         eng_.path.events.append(("open", mode))
+        eng_.I["opened_path"] = path
         k = pick(eng_, ["ok"] + FileSim.EXC, "open")
         if k != "ok":
             if k == "UnicodeDecodeError" and "b" in mode:
@@ -207,6 +208,7 @@ def unit_include(eng):
         comp.attrs["compile_include"] = Builtin("compile_include(contract)", c_compile_include)
         eng.I["rec"] = rec
         tok, s = str_token(eng, "path")
+        eng.I["path_operand"] = s
         return run_meta(eng, ".include", [tok], comp=comp)
 
     def post(eng, o):
@@ -216,7 +218,12 @@ def unit_include(eng):
         if kind != "return":
             return
         out = zbytes(view(eng, val))
+        want_path = eng.I["respath"](eng.I["path_operand"], z3.StringVal("/src/prog.mac"))
+        if "opened_path" in eng.I:
+            eng.prove("the-file-opened-is-the-operand-resolved-against-the-including-file", zs(eng.I["opened_path"]) == want_path)
         if "include" in rec:
+            # paths written inside the included file (its own includes, make_* outputs) resolve against ITS directory: the name it is parsed under
+            eng.prove("included-file-is-parsed-under-its-resolved-path(not the spelling in the directive)", zs(rec["parsed"][0]) == want_path)
             eng.prove("included-file-is-compiled-at-the-current-address", rec["include"][1] is eng.I["state"]["emit_address"])
             eng.prove("produces-the-included-code", out == rec["B"])
             region = True if "D10" in common.ACTIVE_FINDINGS else None
